@@ -116,7 +116,7 @@ func runBombs(c *runCtx, prop string) {
 				if !c.mine([]byte(sh), []byte(strconv.Itoa(d)), []byte(fmt.Sprint(cl))) {
 					continue
 				}
-				for _, lim := range []uint32{0, 1<<32 - 1} {
+				for _, lim := range []int64{0, 1<<32 - 1, -1} { // -1: the limit is the length of the input (header mode)
 					desc := fmt.Sprintf("shape=%s depth=%d closed=%v limit=%d", sh, d, cl, lim)
 					c.watch("bomb " + desc)
 					cmd := exec.Command(self, "bomb-child", sh, strconv.Itoa(d), fmt.Sprint(cl), strconv.Itoa(int(lim)))
@@ -254,6 +254,9 @@ func cmdBombChild(args []string) {
 	d, _ := strconv.Atoi(args[1])
 	lim, _ := strconv.Atoi(args[3])
 	x := bombInput(args[0], d, args[2] == "true")
+	if lim < 0 {
+		lim = len(x)
+	}
 	m, pan := detectAt(x, uint32(lim))
 	if pan != nil || m == nil {
 		fmt.Printf("PANIC %v\n", pan)
